@@ -129,6 +129,10 @@ let explore n0 total maxstates =
 
 let handle toks =
   match toks with
+  | "bounds" :: l :: c :: _ ->
+      (* B_chain L c and B_fanout c of Props/C13.v *)
+      Printf.sprintf "%d %d" (int_of_nat (b_chain (nat_of_int (int_of_string l)) (nat_of_int (int_of_string c))))
+        (int_of_nat (b_fanout (nat_of_int (int_of_string c))))
   | cmd :: rest ->
       let (c, o, p, total, r) = parse_conf (ints rest) in
       let w = wire c o (nat_of_int p) in
